@@ -44,7 +44,7 @@ func init() {
 		Assumptions: []string{
 			"|string only on strings, booleans and integral numbers; |number only on strings; ranges are alone in their bracket; no NULL elements inside multi-dimensional selections; array-valued leaves only under all-each or single-index brackets (flattening depth otherwise undocumented)",
 			"a key step on an array applies the rest of the path to every element (README: '::' exists to continue with the whole result)",
-			"keys contain no single quote",
+			"keys contain no single quote; keys containing braces or brackets are used as (quoted) path steps but not inside {..} pipes",
 		},
 		Gen:         genC09,
 		New:         func() any { return &C09Case{} },
@@ -56,7 +56,7 @@ func init() {
 	})
 }
 
-var selKeys = []string{"a", "b", "c", "id", "n", "x y", "k.z", "q-r", "each", "0", "keep", "u_v"}
+var selKeys = []string{"a", "b", "c", "id", "n", "x y", "k.z", "q-r", "each", "0", "keep", "u_v", "[0]", "{id}", "[each]", "a[1]", "x=>y", "p|q", "m::n"}
 
 func genScalar(t *rapid.T, label string) any {
 	switch rapid.IntRange(0, 6).Draw(t, label+".sk") {
@@ -234,7 +234,21 @@ func genDims(t *rapid.T, a []any, invalid *bool, label string) selref.Step {
 
 func genPipe(t *rapid.T, m map[string]any, invalid *bool, label string) selref.Step {
 	st := selref.Step{K: "pipe"}
-	keys := mapKeys(m)
+	// inside {..} the tokenizer of the documented grammar has no room for keys that themselves contain
+	// braces or brackets (quoted or not): such keys are used as path steps only
+	pipeOK := func(k string) bool { return !strings.ContainsAny(k, "{}[]") }
+	var keys []string
+	for _, k := range mapKeys(m) {
+		if pipeOK(k) {
+			keys = append(keys, k)
+		}
+	}
+	var anyKeys []string
+	for _, k := range selKeys {
+		if pipeOK(k) {
+			anyKeys = append(anyKeys, k)
+		}
+	}
 	n := rapid.IntRange(1, 3).Draw(t, label+".n")
 	for i := 0; i < n; i++ {
 		l := fmt.Sprintf("%s.p%d", label, i)
@@ -242,7 +256,7 @@ func genPipe(t *rapid.T, m map[string]any, invalid *bool, label string) selref.S
 		if len(keys) > 0 && rapid.IntRange(0, 5).Draw(t, l+".existing") != 0 {
 			k = rapid.SampledFrom(keys).Draw(t, l+".key")
 		} else {
-			k = rapid.SampledFrom(selKeys).Draw(t, l+".anykey")
+			k = rapid.SampledFrom(anyKeys).Draw(t, l+".anykey")
 		}
 		p := selref.Pipe{Key: k}
 		switch v := m[k].(type) {
